@@ -69,41 +69,14 @@ pub fn to_standard_form(problem: LinearModel) -> Result<StandardLinearModel, Sol
         });
     }
     // the answer is mapped back to the model's variables by name: a variable
-    // named like a slack, surplus or artificial column, or like one half of the
-    // split `x = $px - $mx` of a free variable of the model, would be lost or
-    // merged there
-    let names: std::collections::HashSet<&String> = variables.iter().collect();
-    let reserved = variables
-        .iter()
-        .find(|name| {
-            ["$sl_", "$su_", "$a_"]
-                .iter()
-                .any(|prefix| name.starts_with(prefix))
-        })
-        .cloned()
-        .or_else(|| {
-            variables
-                .iter()
-                .filter(|name| {
-                    matches!(
-                        domain.get(*name).map(|variable| variable.get_type()),
-                        Some(VariableType::Real(_, _))
-                    )
-                })
-                .flat_map(|name| [format!("$p{}", name), format!("$m{}", name)])
-                .find(|half| names.contains(half))
-        })
-        // two variables named like the two halves of one split
-        .or_else(|| {
-            variables
-                .iter()
-                .find(|name| {
-                    name.strip_prefix("$m")
-                        .is_some_and(|rest| names.contains(&format!("$p{}", rest)))
-                })
-                .cloned()
-        });
-    if let Some(name) = reserved {
+    // named like a slack, surplus or artificial column would be lost there.
+    // (The halves of the split of a free variable x are named `$p|x` and `$m|x`,
+    // which no variable of a model can be called.)
+    if let Some(name) = variables.iter().find(|name| {
+        ["$sl_", "$su_", "$a_"]
+            .iter()
+            .any(|prefix| name.starts_with(prefix))
+    }) {
         return Err(SolverError::Other(format!(
             "the variable name \"{}\" is reserved for the columns of the standard form",
             name
@@ -178,7 +151,9 @@ pub fn to_standard_form(problem: LinearModel) -> Result<StandardLinearModel, Sol
     //we first add the new variables to the domain
     for i in &free_variables {
         let var_name = variables[*i].clone();
-        let (var_name1, var_name2) = (format!("$p{}", var_name), format!("$m{}", var_name));
+        // `|` keeps the two names apart from every name a model can hold: `$m` +
+        // `in_0` would be the compiler's own `$min_0`
+        let (var_name1, var_name2) = (format!("$p|{}", var_name), format!("$m|{}", var_name));
         variables.push(var_name1.clone());
         variables.push(var_name2.clone());
         domain.insert(
